@@ -57,6 +57,8 @@ ID_SCHEMES = {
     "text_rev": ["z", "y", "x", "w"],
     "big": [1000, 500, 750, 600],
     "mixed": ["m", 10000, "k", 7000],
+    # tuple simplex IDs (written as lists in a recipe, JSON has no tuples; `build` turns a list ID into a tuple)
+    "tuple": [[0, 1], ["a", 1], [2], [3, "z", 0]],
 }
 CTORS = ["add_simplex", "add_simplices_from", "list", "dict"]
 # orientation values.  The docstrings of boundary_matrix / hodge_laplacian say "boolean orientation"; the code itself
@@ -101,10 +103,51 @@ def orient_value(mode, ms, salt, explicit=None):
     return c & 1     # crc
 
 
+def regime_label(scheme, i):
+    """label of abstract vertex i of a generated large complex.  big: consecutive integers above 2**53 (no two of them are
+    distinct as float64 - labels are only sorted and compared in C13, never used in arithmetic)"""
+    if scheme == "big":
+        return 2 ** 53 + 1 + i
+    if scheme == "text":
+        return "v%03d" % i
+    if scheme == "mixed":
+        return i if i % 2 == 0 else "v%03d" % i
+    if scheme == "negative":
+        return 7 - 3 * i
+    return i
+
+
+def regime_facets(g):
+    """generating simplices of a LARGE complex from its short description g = {"shape", "n", "labels", "extra"}:
+    star = n edges at one hub vertex (hub degree n); cone = n triangles {hub, p_i, p_i+1} over a path (hub in n triangles,
+    hub degree n + 1); both = star on the first n leaves and cone sharing the hub; extra = that many further disjoint edges
+    (further connected components).  Vertex order inside the simplices alternates so that it is not the sorted order."""
+    n, sch = int(g["n"]), g.get("labels", "range")
+    L = lambda i: regime_label(sch, i)  # noqa
+    fs = []
+    if g["shape"] in ("star", "both"):
+        fs += [[L(0), L(i)] if i % 2 else [L(i), L(0)] for i in range(1, n + 1)]
+    if g["shape"] in ("cone", "both"):
+        off = n if g["shape"] == "both" else 0
+        for i in range(1, n + 1):
+            t = [L(0), L(off + i), L(off + i + 1)]
+            fs.append(t[i % 3:] + t[:i % 3])
+    base = 2 * n + 2
+    for c in range(int(g.get("extra", 0))):
+        fs.append([L(base + 2 * c + 1), L(base + 2 * c)])
+    return fs
+
+
+def facets_of(rec):
+    return regime_facets(rec["gen"]) if rec.get("gen") else rec["facets"]
+
+
 def build(rec):
     """recipe -> real SimplicialComplex"""
-    facets = [list(f) for f in rec["facets"]]
+    facets = [list(f) for f in facets_of(rec)]
     ids = rec.get("ids")
+    if ids is not None:
+        ids = [tuple(i) if isinstance(i, list) else i for i in ids]
     ctor = rec.get("ctor", "add_simplex")
     if ids is None and ctor == "dict":
         ctor = "list"
@@ -201,6 +244,17 @@ def all_small_complexes(n=5, max_facets=3):
             yield [list(f) for f in combo]
 
 
+def all_orientations(facets, cap=6):
+    """one recipe per 0/1 orientation assignment of the simplices of order >= 1 of the complex generated by `facets`
+    (nothing when there are more than `cap` of them: 2**cap assignments)"""
+    cl = sorted(sorted(f) for f in closure(facets) if len(f) >= 2)
+    if len(cl) > cap:
+        return
+    for bits in itertools.product((0, 1), repeat=len(cl)):
+        yield {"facets": [list(f) for f in facets], "ids": None, "ctor": "list", "nodes_first": None,
+               "orient": {"mode": "explicit", "values": [[m, b] for m, b in zip(cl, bits)]}}
+
+
 # ----------------------------------------------------------------------------- implementation side
 
 def mat(B):
@@ -230,6 +284,14 @@ def call_hodge(S, k, o):
         return None, {"out": "err", "exc": type(ex).__name__ + ": " + str(ex)[:120]}
     L = np.asarray(L)
     return (L, md), {"out": "ok", "shape": list(L.shape), "keys": keys_of(md), "M": mat(L)}
+
+
+LARGE = 40   # matrices with more rows: float64 rank / eigenvalues instead of exact elimination over fractions
+
+
+def short(x, n=300):
+    t = repr(x)
+    return t if len(t) <= n else t[:n] + "...(%d chars)" % len(t)
 
 
 def rank_exact(M):
@@ -293,6 +355,7 @@ def evaluate(rec, xs_rng=None):
         net, skip_model = {"nodes": [], "simplices": []}, "labels-outside-model"
     if len(nodes) > MAX_NODES or len(members) > MAX_SIMPLICES:
         skip_model = "size-cap"
+        net = {"nodes": [], "simplices": []}
     # the model receives the orientation dict exactly as the implementation does (None -> null; True -> 1, as
     # Python's own arithmetic reads it)
     oj = None if o is None else [[enc_id(e), int(v)] for e, v in o.items()]
@@ -355,7 +418,8 @@ def evaluate(rec, xs_rng=None):
                 if P.shape[1] != B.shape[0]:
                     fails.append(("boundary_matrix", "shape-or-keys", f"B_{k-1} is {P.shape}, B_{k} is {B.shape}", k))
                 else:
-                    prod = P @ B
+                    # the product is formed in float64 whatever dtype the implementation returned (exact for these sizes)
+                    prod = P.astype(np.float64) @ B.astype(np.float64)
                     if np.any(prod != 0):
                         fails.append(("boundary_matrix", "dd-nonzero", f"B_{k-1} @ B_{k} = {prod.tolist()}", k))
     for k in orders:
@@ -377,21 +441,45 @@ def evaluate(rec, xs_rng=None):
         if Bs[k][0] is not None and Bs[k + 1][0] is not None:
             Bk, Bk1 = Bs[k][0][0], Bs[k + 1][0][0]
             if Bk.shape[1] == L.shape[0] and Bk1.shape[0] == L.shape[0]:
+                Bk, Bk1 = Bk.astype(np.float64), Bk1.astype(np.float64)   # never in the implementation's own dtype
                 ref = Bk.T @ Bk + Bk1 @ Bk1.T
                 if not np.array_equal(ref, L):
-                    fails.append(("hodge_laplacian", "not-down-plus-up", f"order {k}: L={L.tolist()} but B_k^T B_k + B_k+1 B_k+1^T={ref.tolist()}", k))
+                    fails.append(("hodge_laplacian", "not-down-plus-up", f"order {k}: L={short(L.tolist())} but B_k^T B_k + B_k+1 B_k+1^T={short(ref.tolist())}", k))
         if xs_rng is not None and L.shape[0] > 0:
             for _ in range(3):
                 x = np.array([xs_rng.gauss(0, 1) for _ in range(L.shape[0])])
                 q = float(x @ L @ x)
                 if not q >= -1e-9:
                     fails.append(("hodge_laplacian", "not-psd", f"order {k}: x={x.tolist()} gives x^T L x = {q}", k)); break
+        if L.shape[0] > LARGE and not (np.array_equal(L, L.T) and ("hodge_laplacian", "not-down-plus-up") not in [(f[0], f[1]) for f in fails if f[3] == k]
+                                       and Bs[k][0] is not None and Bs[k + 1][0] is not None):
+            # large matrices: L = B_k^T B_k + B_k+1 B_k+1^T was just verified exactly (a Gram sum is positive semidefinite);
+            # only when that identity is not available the smallest eigenvalue is computed (float64, symmetric solver)
+            try:
+                lo = float(np.linalg.eigvalsh(L.astype(np.float64)).min())
+                if not lo >= -1e-7 * max(1.0, float(np.abs(L).max())):
+                    fails.append(("hodge_laplacian", "not-psd", f"order {k}: smallest eigenvalue {lo} of the {L.shape[0]}x{L.shape[0]} matrix", k))
+            except Exception as ex:  # noqa
+                fails.append(("hodge_laplacian", "not-psd", f"order {k}: eigenvalues not computable: {type(ex).__name__}", k))
+        if k == 0 and L.shape[0] > 0:
+            # consequence of L_0 = B_1 B_1^T with columns = +-1 at the two endpoints: the diagonal is the vertex degree
+            # in the 1-skeleton, every off-diagonal entry is -1 on an edge and 0 elsewhere
+            deg = {n: 0 for n in nodes}
+            for ms in members.values():
+                if len(ms) == 2:
+                    for n in ms:
+                        deg[n] += 1
+            diag = [float(L[i, i]) for i in range(L.shape[0])]
+            if diag != [float(deg[n]) for n in nodes]:
+                i = next(i for i, n in enumerate(nodes) if diag[i] != float(deg[n]))
+                fails.append(("hodge_laplacian", "L0-diagonal-not-degree", f"L_0[{i},{i}] = {diag[i]} but vertex {nodes[i]!r} lies in {deg[nodes[i]]} 1-simplices", k))
         if any(float(v) != int(v) for row in L.tolist() for v in row):
             fails.append(("hodge_laplacian", "entry-not-integer", f"order {k}: {L.tolist()}", k))
         elif L.shape[0] > 0:
             # exact positive semidefiniteness witness is the decomposition above; exact kernel for order 0
             if k == 0:
-                ker = L.shape[0] - rank_exact(mat(L))
+                # exact rank over fractions; above LARGE rows the float64 rank (SVD) of the integer matrix
+                ker = L.shape[0] - (rank_exact(mat(L)) if L.shape[0] <= LARGE else int(np.linalg.matrix_rank(L.astype(np.float64))))
                 nc = n_components(S)
                 res["ker"], res["ncomp"] = ker, nc
                 if ker != nc:
@@ -417,7 +505,48 @@ def evaluate(rec, xs_rng=None):
 
 # ----------------------------------------------------------------------------- shrinking, comparison
 
+def shrink_gen(rec, still_fails, budget=40):
+    """a generated LARGE complex is described by a few numbers: smallest n (bisection), then simpler shape / labels / orientation"""
+    rec = copy.deepcopy(rec)
+
+    def ok(c):
+        nonlocal budget
+        budget -= 1
+        try:
+            return budget >= 0 and still_fails(c)
+        except Exception:  # noqa
+            return False
+
+    def with_gen(**kw):
+        c = copy.deepcopy(rec)
+        c["gen"].update(kw)
+        return c
+    for kw in ({"extra": 0}, {"shape": "star"}, {"shape": "cone"}, {"labels": "range"}):
+        if kw.get("shape") == "cone" and rec["gen"]["shape"] != "both":
+            continue
+        if any(rec["gen"].get(k) != v for k, v in kw.items()):
+            c = with_gen(**kw)
+            if ok(c):
+                rec = c
+    if rec.get("orient", {}).get("mode", "none") != "none":
+        c = copy.deepcopy(rec)
+        c["orient"] = {"mode": "none"}
+        if ok(c):
+            rec = c
+    lo, hi = 1, int(rec["gen"]["n"])   # invariant: n = hi fails
+    while lo < hi and budget > 0:
+        mid = (lo + hi) // 2
+        if ok(with_gen(n=mid)):
+            hi = mid
+        else:
+            lo = mid + 1
+    rec["gen"]["n"] = hi
+    return rec
+
+
 def shrink(rec, still_fails, budget=150):
+    if rec.get("gen"):
+        return shrink_gen(rec, still_fails)
     rec = copy.deepcopy(rec)
 
     def ok(c):
@@ -487,6 +616,180 @@ def shrink(rec, still_fails, budget=150):
         except Exception:  # noqa
             pass
     return rec
+
+
+# ----------------------------------------------------------------------------- held object (state across calls)
+
+def _snap(S, spec, dim):
+    """every public result on the object S under the orientation rule `spec`: B_k for k = 0..dim+2, L_k for k = 0..dim+1"""
+    o = orientation(S, spec)
+    out = {}
+    for k in range(0, dim + 3):
+        out["B%d" % k] = call_boundary(S, k, o)[1]
+    for k in range(0, dim + 2):
+        out["L%d" % k] = call_hodge(S, k, o)[1]
+    return out
+
+
+def _apply_edit(S, op):
+    """["add", members] -> add_simplex; ["remove", members] -> remove_simplex_id of the simplex with these members
+    (a recipe that no longer has it - after shrinking - skips the step)"""
+    kind, ms = op[0], [tuple(x) if isinstance(x, list) else x for x in op[1]]
+    if kind == "add":
+        S.add_simplex(list(ms))
+        return True
+    for e, m in S.edges.members(dtype=dict).items():
+        if m == frozenset(ms):
+            S.remove_simplex_id(e)
+            return True
+    return False
+
+
+def _dim(S):
+    sizes = [len(ms) for ms in S.edges.members()]
+    return max(sizes) - 1 if sizes else 0
+
+
+def held_eval(case):
+    """ONE complex object S is kept through the whole sequence: results under orientation o0 (= case["orient"]); then, on the
+    same S, under o1 (= case["orient2"], differs from o0 on at least one simplex), under orientations=None and under o0
+    again; then after each group of edits in case["stages"] (first a count-preserving one, then ordinary ones) under o0 and
+    o1.  Every result must equal the same call on a fresh S.copy() (an object the library has not seen), and
+    L_k(o) = B_k(o)^T B_k(o) + B_{k+1}(o) B_{k+1}(o)^T with the boundary matrices of the fresh object.
+    returns ([(site, failure_class, detail)], number of calls compared)"""
+    S = build(case)
+    spec0, spec1 = case.get("orient", {"mode": "none"}), case.get("orient2", {"mode": "ones"})
+    fails, compared = [], 0
+
+    def against_fresh(stage, cls, specs):
+        nonlocal compared
+        dim = _dim(S)
+        for name, spec in specs:
+            held = _snap(S, spec, dim)
+            ref = _snap(S.copy(), spec, dim)
+            for key in held:
+                compared += 1
+                if held[key] != ref[key]:
+                    site = "boundary_matrix" if key[0] == "B" else "hodge_laplacian"
+                    fails.append((site, cls, f"{stage}: order {key[1:]}, orientations {name}: the held object answers "
+                                  f"{short(strip(held[key]), 200)}, a fresh copy answers {short(strip(ref[key]), 200)}"))
+            for k in range(0, dim + 2):
+                hl, b0, b1 = held["L%d" % k], ref["B%d" % k], ref["B%d" % (k + 1)]
+                if hl.get("out") == b0.get("out") == b1.get("out") == "ok" and hl["shape"][0] == b0["shape"][1] == b1["shape"][0] and hl["shape"][0] > 0:
+                    B0 = np.array(b0["M"], dtype=np.float64).reshape(b0["shape"])
+                    B1 = np.array(b1["M"], dtype=np.float64).reshape(b1["shape"])
+                    if not np.array_equal(B0.T @ B0 + B1 @ B1.T, np.array(hl["M"], dtype=np.float64).reshape(hl["shape"])):
+                        fails.append(("hodge_laplacian", cls, f"{stage}: order {k}, orientations {name}: L_k of the held object is not "
+                                      f"B_k^T B_k + B_k+1 B_k+1^T for the boundary matrices of this orientation (fresh copy)"))
+    _snap(S, spec0, _dim(S))   # first calls: whatever the library keeps, it keeps it for (S, o0)
+    against_fresh("second round of calls on the same complex", "stale-result-other-orientation",
+                  [("o1 (other orientation)", spec1), ("None", {"mode": "none"}), ("o0 (the first one again)", spec0)])
+    for i, ops in enumerate(case.get("stages", [])):
+        done = [_apply_edit(S, op) for op in ops]
+        if not any(done):
+            continue
+        against_fresh("after edit %d (%s)" % (i + 1, "; ".join("%s %s" % (op[0], op[1]) for op in ops)), "stale-result-after-edit",
+                      [("o0", spec0), ("o1 (other orientation)", spec1)])
+    return fails, compared
+
+
+def gen_held(rng):
+    """a small recipe with an edge, a second orientation rule that flips 1-2 simplices of the first, and three groups of edits"""
+    for _ in range(50):
+        rec = gen_recipe(rng, max_vertices=5, max_facets=3)
+        if rec["ids"] is not None and rng.random() < 0.5:
+            rec["ids"] = ID_SCHEMES["tuple"][:len(rec["facets"])]
+        try:
+            S = build(rec)
+        except Exception:  # noqa
+            continue
+        orientable = [sorted(ms, key=lambda x: (isinstance(x, str), x)) for ms in S.edges.members() if len(ms) >= 2]
+        nodes = list(S.nodes)
+        if not orientable or len(nodes) < 3:
+            continue
+        base = rec["orient"]
+        flip = rng.sample(range(len(orientable)), rng.randint(1, min(2, len(orientable))))
+        vals = []
+        for i, ms in enumerate(orientable):
+            v = 0 if base.get("mode", "none") == "none" else int(orient_value(base["mode"], ms, base.get("salt", 0)))
+            vals.append([ms, v ^ 1 if i in flip else v])
+        rec["orient2"] = {"mode": "explicit", "values": vals}
+        stages = []
+        T = S.copy()
+        ne, nn = T.num_edges, T.num_nodes
+        for _try in range(30):     # count-preserving: remove a maximal simplex, add another, same numbers of nodes and simplices
+            U = T.copy()
+            e = rng.choice(list(U.edges.maximal()))
+            old = sorted(U.edges.members(e), key=lambda x: (isinstance(x, str), x))
+            new = rng.sample(nodes, rng.randint(2, min(3, len(nodes))))
+            U.remove_simplex_id(e)
+            U.add_simplex(new)
+            if U.num_edges == ne and U.num_nodes == nn and set(map(frozenset, U.edges.members())) != set(map(frozenset, T.edges.members())):
+                stages.append([["remove", old], ["add", new]])
+                T = U
+                break
+        stages.append([["add", rng.sample(nodes, rng.randint(2, min(4, len(nodes))))]])
+        mx = list(T.edges.maximal())
+        if mx:
+            stages.append([["remove", sorted(T.edges.members(rng.choice(mx)), key=lambda x: (isinstance(x, str), x))]])
+        rec["stages"] = stages
+        rec["kind"] = "held"
+        return rec
+    return None
+
+
+def run_held(ctx, cases):
+    for case in cases:
+        if case is None:
+            continue
+        try:
+            fails, compared = held_eval(case)
+        except Exception as ex:  # noqa  (construction / edit raised: not a result of the two functions, but never silent)
+            ctx.stats["held-object-sequence-raised:" + type(ex).__name__] += 1
+            continue
+        ctx.evaluations += compared
+        ctx.stats["held-object-sequences"] += 1
+        ctx.stats["held-object-calls-compared-with-fresh-copy"] += compared
+        if len(case.get("stages", [])) >= 3:
+            ctx.stats["held-object-sequences-with-count-preserving-edit"] += 1
+        seen = set()
+        for site, cls, detail in fails:
+            if (site, cls) in seen:
+                continue
+            seen.add((site, cls))
+            key = "held:%s/%s" % (site, cls)
+            ctx.stats["predicate-failures:" + key] += 1
+
+            def still(c, site=site, cls=cls):
+                return any(s2 == site and c2 == cls for s2, c2, _ in held_eval(c)[0])
+            small = case
+            if ctx.stats["predicate-failures:" + key] <= 3:
+                small = shrink(case, still, budget=80)
+                for j in range(len(small.get("stages", [])) - 1, -1, -1):
+                    c = copy.deepcopy(small)
+                    del c["stages"][j]
+                    try:
+                        if still(c):
+                            small = c
+                    except Exception:  # noqa
+                        pass
+                try:
+                    detail = next((d for s2, c2, d in held_eval(small)[0] if s2 == site and c2 == cls), detail)
+                except Exception:  # noqa
+                    pass
+            ctx.violation(site, cls, small, detail=detail)
+
+
+def gen_regime(rng):
+    """the LARGE complexes of one run: a star with >= 130 edges at the hub labelled by integers above 2**53 (plus further
+    components), and a cone over a path (>= 130 triangles at one vertex) or both glued at the hub"""
+    orient = lambda: {"mode": rng.choice(["none", "crc", "int4", "bool"]), "salt": rng.randint(0, 10 ** 6)}  # noqa
+    a = {"kind": "regime", "gen": {"shape": "star", "n": rng.randint(130, 150), "labels": "big", "extra": rng.randint(0, 3)},
+         "ids": None, "ctor": rng.choice(["add_simplex", "add_simplices_from"]), "nodes_first": None, "orient": orient()}
+    b = {"kind": "regime", "gen": {"shape": rng.choice(["cone", "cone", "both"]), "n": rng.randint(130, 140),
+                                   "labels": rng.choice(["range", "text", "mixed", "negative"]), "extra": rng.randint(0, 2)},
+         "ids": None, "ctor": "add_simplex", "nodes_first": None, "orient": orient()}
+    return [a, b]
 
 
 def strip(r):
@@ -640,10 +943,36 @@ def run(ctx):
                 "orientations None / constant 0, 1, 2, 3 / pseudo-random int bits / bools / ints in 0..3 / bools and ints mixed; "
                 "every order 0..dim+1, both functions; plus a smaller batch with float labels evaluated on the implementation only; "
                 "one evaluation = one call compared (or, for float labels, one call whose result the predicate examined); "
-                "non-trivial = distinct (complex, labels, orientation) with a simplex of order >= 2")
+                "non-trivial = distinct (complex, labels, orientation) with a simplex of order >= 2; "
+                "explicit simplex ids include tuples; every 0/1 orientation assignment of a triangle with a pendant edge (thorough tier: of "
+                "the 53 complexes on {0..3} generated by <= 2 simplices with 2..6 orientable simplices); "
+                "LARGE complexes, predicate only (not sent to the driver): per run a star with 130-150 edges at a hub whose labels are "
+                "consecutive integers above 2**53 (+ 0-3 further components) and a cone over a path (130-140 triangles at one vertex; "
+                "int / text / mixed / negative labels), both with >= 130 vertices; "
+                "HELD-OBJECT sequences, implementation against itself: one complex object S, calls for every order with o0, then on the "
+                "same S with o1 (1-2 simplices flipped), None and o0 again, then after a count-preserving edit (remove a maximal simplex, "
+                "add another; found for about 40% of the sequences), after add_simplex and after remove_simplex_id, each time with o0 and o1; "
+                "every result must equal the same call on a fresh S.copy() and L_k must equal B_k^T B_k + B_k+1 B_k+1^T of the fresh "
+                "copy's boundary matrices; one evaluation there = one call compared with the fresh copy")
     dis = process(ctx, corpus() + copy.deepcopy(FIXED), "C13~hodge_matrix (corpus + fixed)")
     recipes = [gen_recipe(rng) for _ in range(ctx.n(N_QUICK, 20000))]
     dis += process(ctx, recipes, "C13~hodge_matrix (generated)")
+    # "all orientation assignments": enumerated (every 0/1 assignment; other values act through their parity and are drawn
+    # at random above) for a triangle with a pendant edge in the quick tier, for every complex generated by <= 2 simplices on
+    # {0..3} that has <= 6 simplices of order >= 1 in the thorough tier
+    enum = list(all_orientations([[0, 1, 2], [2, 3]]))
+    n_enum_complexes = 1
+    if not ctx.quick:
+        for g in all_small_complexes(4, 2):
+            a = list(all_orientations(g))
+            if len(a) > 1:
+                enum += a
+                n_enum_complexes += 1
+    ctx.stats["orientation-assignments-enumerated"] = len(enum)
+    ctx.extra["orientation_enumeration"] = (f"every 0/1 orientation assignment of {n_enum_complexes} complex(es): {len(enum)} (complex, assignment) pairs, "
+                                            "all orders, both functions, compared with the model")
+    for i in range(0, len(enum), 2000):
+        dis += process(ctx, enum[i:i + 2000], "C13~hodge_matrix (all orientation assignments)")
     # "numeric labels" that are floats: outside the model, property predicate only
     process(ctx, [gen_recipe(rng, floats=True) for _ in range(ctx.n(60, 1500))], "C13 predicate only (float labels)")
     if not ctx.quick:
@@ -682,6 +1011,11 @@ def run(ctx):
                 def still(c, site=site, cls=cls):
                     return any(s2 == site and c2 == cls for s2, c2, _, _ in evaluate(c, None)[2])
                 ctx.violation(site, cls, shrink(rec, still) if cls != "not-psd" else rec, detail=detail)
+    # REGIME: large complexes (>= 130 edges / triangles at one vertex, >= 130 vertex labels, integers above 2**53):
+    # property predicate on the implementation only (size-cap: not sent to the interpreted Lean driver)
+    process(ctx, gen_regime(rng) if ctx.quick else gen_regime(rng) + gen_regime(rng) + gen_regime(rng), "C13 predicate only (large complexes)")
+    # HELD OBJECT: one complex through calls with o0, o1, None, o0, edits (count-preserving and ordinary), calls again
+    run_held(ctx, [gen_held(rng) for _ in range(ctx.n(60, 1500))])
     # no hidden state: boundary matrices / Hodge Laplacians of an edited complex must be those of its current structure
     from ..stale import check_sc
 
@@ -705,15 +1039,26 @@ def run(ctx):
         "node labels are int or str in the model (the code's sort key orders numbers before strings); float labels (the "
         "'numeric labels' of the property text that are not ints) are OUTSIDE the model: such complexes are generated in a "
         "separate batch and only the property predicate is evaluated on the implementation's matrices; bool/tuple labels are "
-        "not generated",
+        "not generated (tuple SIMPLEX IDS are: one of the six id schemes); complex-number labels are not orderable "
+        "(boundary_matrix raises TypeError in its sort) and are read as outside 'numeric labels'",
         "orientation dicts cover every simplex of order >= 1 (a missing key is a KeyError, not C13's subject) with values in "
         "{0, 1, 2, 3, False, True}: the docstrings say 'boolean orientation', the code uses the value only as an exponent of -1 "
         "and as a summand mod 2, so every natural number is admissible and the model computes with naturals exactly as the "
         "code does ((-1) ** o in the order-1 branch, (-1) ** ((o + order - i) % 2 + o[face]) otherwise); negative values are "
         "never generated (the driver would answer 'unmodelled', never 'bad-op'); non-integer values are not generated",
         "complexes have <= 6 vertices, <= 4 generating simplices and <= 57 simplices, orders <= 5 (thorough tier: additionally "
-        "every complex generated by <= 3 simplices on 5 vertices); a corpus / replay case above 7 nodes or 70 simplices is "
-        "evaluated on the implementation only",
+        "every complex generated by <= 3 simplices on 5 vertices); complexes above 7 nodes or 70 simplices - the two LARGE complexes "
+        "of every run, or a corpus / replay case - are evaluated on the implementation only (property predicate: keys, column "
+        "support, B_k-1 @ B_k = 0, L = B^T B + B B^T with the products formed in float64 independently of the dtype the library "
+        "chose, symmetry, diagonal of L_0 = vertex degree, dim ker L_0 = #components); above 40 rows the rank is numpy's float64 "
+        "matrix_rank instead of exact elimination, and positive semidefiniteness rests on the exactly verified Gram decomposition "
+        "(eigenvalues are computed only when that identity fails)",
+        "orientation assignments: the quantifier's 'all orientation assignments' is met by enumeration only for the complexes "
+        "named in `rule` (every 0/1 assignment); for every other complex ONE assignment per recipe is drawn (constant, hash bits, "
+        "values 0..3)",
+        "held-object sequences compare the implementation with itself (held object vs fresh copy); the model is not asked there, "
+        "and a memo shared between different objects with equal content would be invisible to that comparison (the ordinary "
+        "recipes, each a fresh object with its own orientation, meet the model instead)",
         "theorems assume WF (ids unique, members duplicate-free nodes, no empty simplex, distinct member sets, downward closed); "
         "the driver decides WF on every complex the real constructor produced and the check fails if it does not hold",
         "numpy zeros / item assignment / transpose / @ / + are modelled as exact integer matrix operations",
@@ -734,7 +1079,7 @@ def replay(ctx, path):
     from .. import core as _core
     j = json.load(open(path))
     rec = j.get("case", j)
-    if not (isinstance(rec, dict) and "facets" in rec):
+    if not (isinstance(rec, dict) and ("facets" in rec or "gen" in rec)):
         raise Infra(f"{path} does not hold a C13 recipe (a model-tie/unproven replay has no concrete input to re-run)")
 
     def _write(prop, ev):
@@ -748,7 +1093,11 @@ def replay(ctx, path):
     try:
         ok = build_and_audit(ctx, "XgiModel.Props.C13", ["XgiModel.C13.Drive"])
         ctx.rule = "replay of one recorded case"
-        dis = process(ctx, [rec], "C13~hodge_matrix (replay)")
+        if rec.get("kind") == "held":
+            run_held(ctx, [rec])   # a held-object sequence: implementation against itself on a fresh copy (no model call)
+            dis = []
+        else:
+            dis = process(ctx, [rec], "C13~hodge_matrix (replay)")
         conclude(ctx, ok, dis, None)
         return finish(ctx, trusted_base=TRUSTED_COMMON)
     finally:
